@@ -2,7 +2,9 @@ import VrpModel.Mirp
 import VrpProofs.Lemmas.Sum
 import Mathlib.Algebra.Order.Field.Rat
 import Mathlib.Algebra.Order.Field.Basic
+import Mathlib.Algebra.Order.Archimedean.Basic
 import Mathlib.Data.Finset.Card
+import Mathlib.Data.List.Nodup
 import Mathlib.Tactic.Linarith
 import Mathlib.Tactic.Ring
 import Mathlib.Tactic.FieldSimp
@@ -17,5 +19,280 @@ open Vrp Finset
 /-- window start / end of the (k+1)-th visit -/
 abbrev tw0 (size init rate cap : ℚ) (k : ℕ) : ℚ := (getTimeWindow size k init rate cap).1
 abbrev tw1 (size init rate cap : ℚ) (k : ℕ) : ℚ := (getTimeWindow size k init rate cap).2
+
+/-! ## helper lemmas: closed forms of the window ends -/
+
+theorem tw0_pos (size init rate cap : ℚ) (k : ℕ) (hr : 0 < rate) :
+    tw0 size init rate cap k = (((k : ℚ) + 1) * size - init) / rate := by
+  unfold tw0 getTimeWindow; simp [hr]
+theorem tw1_pos (size init rate cap : ℚ) (k : ℕ) (hr : 0 < rate) :
+    tw1 size init rate cap k = (cap + (k : ℚ) * size - init) / rate := by
+  unfold tw1 getTimeWindow; simp [hr]
+theorem tw0_neg (size init rate cap : ℚ) (k : ℕ) (hr : rate < 0) :
+    tw0 size init rate cap k = (init + ((k : ℚ) + 1) * size - cap) / (-rate) := by
+  unfold tw0 getTimeWindow; simp only [not_lt.2 hr.le, if_false]
+  rw [← neg_div_neg_eq]; congr 1; ring
+theorem tw1_neg (size init rate cap : ℚ) (k : ℕ) (hr : rate < 0) :
+    tw1 size init rate cap k = (init + (k : ℚ) * size) / (-rate) := by
+  unfold tw1 getTimeWindow; simp only [not_lt.2 hr.le, if_false]
+  rw [← neg_div_neg_eq]; congr 1; ring
+
+/-! ## statements -/
+
+/-- supply port (rate > 0): the window opens at the first instant a full cargo can be loaded … -/
+theorem tw_supply_opens (size init rate cap t : ℚ) (k : ℕ) (hr : 0 < rate) :
+    0 ≤ init + rate * t - ((k : ℚ) + 1) * size ↔ tw0 size init rate cap k ≤ t := by
+  rw [tw0_pos _ _ _ _ _ hr, div_le_iff₀ hr]; constructor <;> intro h <;> linarith
+
+/-- … and closes at the last instant before the port would overflow -/
+theorem tw_supply_closes (size init rate cap t : ℚ) (k : ℕ) (hr : 0 < rate) :
+    init + rate * t - (k : ℚ) * size ≤ cap ↔ t ≤ tw1 size init rate cap k := by
+  rw [tw1_pos _ _ _ _ _ hr, le_div_iff₀ hr]; constructor <;> intro h <;> linarith
+
+/-- demand port (rate < 0): opens at the first instant a full cargo can be discharged … -/
+theorem tw_demand_opens (size init rate cap t : ℚ) (k : ℕ) (hr : rate < 0) :
+    init + rate * t + ((k : ℚ) + 1) * size ≤ cap ↔ tw0 size init rate cap k ≤ t := by
+  rw [tw0_neg _ _ _ _ _ hr, div_le_iff₀ (neg_pos.2 hr)]; constructor <;> intro h <;> linarith
+
+/-- … and closes at the last instant before the port would run dry -/
+theorem tw_demand_closes (size init rate cap t : ℚ) (k : ℕ) (hr : rate < 0) :
+    0 ≤ init + rate * t + (k : ℚ) * size ↔ t ≤ tw1 size init rate cap k := by
+  rw [tw1_neg _ _ _ _ _ hr, le_div_iff₀ (neg_pos.2 hr)]; constructor <;> intro h <;> linarith
+
+/-- the window is non-inverted iff a full cargo fits into the port's capacity -/
+theorem tw_valid_iff (size init rate cap : ℚ) (k : ℕ) (hr : rate ≠ 0) :
+    tw0 size init rate cap k ≤ tw1 size init rate cap k ↔ size ≤ cap := by
+  rcases lt_or_gt_of_ne hr with h | h
+  · rw [tw0_neg _ _ _ _ _ h, tw1_neg _ _ _ _ _ h, div_le_div_iff_of_pos_right (neg_pos.2 h)]
+    constructor <;> intro h <;> linarith
+  · rw [tw0_pos _ _ _ _ _ h, tw1_pos _ _ _ _ _ h, div_le_div_iff_of_pos_right h]
+    constructor <;> intro h <;> linarith
+
+/-- window ends are strictly increasing in the visit number -/
+theorem tw1_strictMono (size init rate cap : ℚ) (k : ℕ) (hsize : 0 < size) (hr : rate ≠ 0) :
+    tw1 size init rate cap k < tw1 size init rate cap (k + 1) := by
+  rcases lt_or_gt_of_ne hr with h | h
+  · rw [tw1_neg _ _ _ _ _ h, tw1_neg _ _ _ _ _ h, div_lt_div_iff_of_pos_right (neg_pos.2 h)]
+    push_cast; linarith
+  · rw [tw1_pos _ _ _ _ _ h, tw1_pos _ _ _ _ _ h, div_lt_div_iff_of_pos_right h]
+    push_cast; linarith
+
+/-- some visit's window ends after the horizon (so the loop of `add_nodes` terminates) -/
+theorem exists_beyond_horizon (size init rate cap H : ℚ) (hsize : 0 < size) (hr : rate ≠ 0) :
+    ∃ K : ℕ, H < tw1 size init rate cap K := by
+  rcases lt_or_gt_of_ne hr with h | h
+  · obtain ⟨K, hK⟩ := exists_nat_gt ((H * (-rate) - init) / size)
+    refine ⟨K, ?_⟩
+    rw [tw1_neg _ _ _ _ _ h, lt_div_iff₀ (neg_pos.2 h)]
+    rw [div_lt_iff₀ hsize] at hK; linarith
+  · obtain ⟨K, hK⟩ := exists_nat_gt ((H * rate - cap + init) / size)
+    refine ⟨K, ?_⟩
+    rw [tw1_pos _ _ _ _ _ h, lt_div_iff₀ h]
+    rw [div_lt_iff₀ hsize] at hK; linarith
+/-- the node record `add_nodes` creates for visit `k` -/
+def visitNode (size : ℚ) (port : String) (init rate cap : ℚ) (k : ℕ) : Node :=
+  ⟨visitName port k, if 0 < rate then -size else size, tw0 size init rate cap k, some (tw1 size init rate cap k)⟩
+
+/-- helper: looking up the key just assigned by `mapSet` returns the assigned value -/
+theorem nodesOf_mapSet (d : List (String × List String)) (k : String) (v : List String) :
+    (((mapSet d k v).find? fun e => e.1 = k).map (·.2)).getD [] = v := by
+  induction d with
+  | nil => simp [mapSet]
+  | cons a rest ih =>
+    obtain ⟨k', v'⟩ := a
+    unfold mapSet
+    by_cases h : k' = k
+    · simp [h]
+    · simp [h]
+      simpa using ih
+
+/-- helper: generalised loop statement (`n` visits remain, `k + n = K`) -/
+theorem addNodesLoop_exact (size H : ℚ) (port : String) (init rate cap : ℚ) (K : ℕ)
+    (hr : rate ≠ 0) (hcap : size ≤ cap)
+    (hK1 : ∀ k < K, tw1 size init rate cap k ≤ H) (hK2 : H < tw1 size init rate cap K) :
+    ∀ (n fuel : ℕ) (m : Mirp) (k : ℕ) (acc : List String), k + n = K → n < fuel →
+      m.size = size → m.horizon = H → m.nodesOf port = acc →
+      (m.g.names ++ (List.range' k n).map (visitName port)).Nodup →
+      ∃ m', addNodesLoop fuel m port (if 0 < rate then -size else size) init rate cap k acc
+          = some (m', .ok (acc ++ (List.range' k n).map (visitName port))) ∧
+        m'.g.nodes = m.g.nodes ++ (List.range' k n).map (visitNode size port init rate cap) ∧
+        m'.g.arcs = m.g.arcs ∧
+        m'.nodesOf port = acc ++ (List.range' k n).map (visitName port) ∧
+        m'.supply = m.supply ∧ m'.demand = m.demand ∧ m'.size = size ∧ m'.horizon = H := by
+  intro n
+  induction n with
+  | zero =>
+    intro fuel m k acc hk hfuel hs hH hno _
+    obtain ⟨f, rfl⟩ : ∃ f, fuel = f + 1 := ⟨fuel - 1, by omega⟩
+    have hk' : k = K := by omega
+    subst hk'
+    refine ⟨m, ?_, by simp, rfl, by simpa using hno, rfl, rfl, hs, hH⟩
+    unfold addNodesLoop
+    simp only [hs, hH]
+    rw [if_pos hK2]; simp
+  | succ n ih =>
+    intro fuel m k acc hk hfuel hs hH hno hnd
+    obtain ⟨f, rfl⟩ : ∃ f, fuel = f + 1 := ⟨fuel - 1, by omega⟩
+    have hkK : k < K := by omega
+    have hnot : ¬ H < tw1 size init rate cap k := not_lt.2 (hK1 k hkK)
+    rw [List.range'_succ, List.map_cons] at hnd
+    have hfresh : visitName port k ∉ m.g.names := by
+      intro hmem
+      have := (List.nodup_append.1 hnd).2.2 _ hmem _ (List.mem_cons_self)
+      exact this rfl
+    have hvalid : ltE (some (tw1 size init rate cap k)) (tw0 size init rate cap k) = false := by
+      simp [ltE, leE, (tw_valid_iff size init rate cap k hr).2 hcap]
+    set m2 : Mirp := { m with g := { m.g with nodes := m.g.nodes ++ [visitNode size port init rate cap k] },
+                              mapping := mapSet m.mapping port (acc ++ [visitName port k]) } with hm2
+    have hstep : addNodesLoop (f + 1) m port (if 0 < rate then -size else size) init rate cap k acc
+        = addNodesLoop f m2 port (if 0 < rate then -size else size) init rate cap (k + 1) (acc ++ [visitName port k]) := by
+      conv_lhs => unfold addNodesLoop
+      simp only [hs, hH]
+      rw [if_neg hnot]
+      simp only [addNodeStep, if_neg hfresh, hvalid]
+      simp [hm2, visitNode, hs, hH]
+    have hnd2 : (m2.g.names ++ (List.range' (k + 1) n).map (visitName port)).Nodup := by
+      simpa [hm2, Graph.names, List.append_assoc, visitNode] using hnd
+    obtain ⟨m', h1, h2, h3, h4, h5, h6, h7, h8⟩ :=
+      ih f m2 (k + 1) (acc ++ [visitName port k]) (by omega) (by omega) hs hH
+        (by simp [hm2, Mirp.nodesOf, nodesOf_mapSet]) hnd2
+    refine ⟨m', ?_, ?_, ?_, ?_, h5, h6, h7, h8⟩
+    · rw [hstep, h1, List.range'_succ]; simp
+    · rw [h2, List.range'_succ]; simp [hm2]
+    · rw [h3]
+    · rw [h4, List.range'_succ]; simp
+
+/-- helper: a finite set of naturals with more than `m` elements has an element `≥ m` -/
+theorem exists_ge_of_card {S : Finset ℕ} {m : ℕ} (h : m < S.card) : ∃ k ∈ S, m ≤ k := by
+  by_contra hcon
+  have hsub : S ⊆ range m := by
+    intro k hk
+    rw [Finset.mem_range]
+    by_contra hlt
+    exact hcon ⟨k, hk, not_lt.1 hlt⟩
+  have := Finset.card_le_card hsub
+  simp at this; omega
+
+/-- helper: a finite set of naturals with fewer than `K` elements misses some `k < K` with `k ≤ card` -/
+theorem exists_le_not_mem {S : Finset ℕ} {K : ℕ} (h : S.card < K) :
+    ∃ k, k < K ∧ k ∉ S ∧ k ≤ S.card := by
+  by_contra hcon
+  have hsub : range (S.card + 1) ⊆ S := by
+    intro k hk
+    have hk' := Finset.mem_range.1 hk
+    by_contra hn
+    exact hcon ⟨k, by omega, hn, by omega⟩
+  have := Finset.card_le_card hsub
+  simp at this
+
+/-- **`add_nodes` emits exactly the consecutive visits whose windows end within the horizon**, each with
+    demand ∓size and the closed-form window; ports lists and the port→nodes map are updated; arcs untouched.
+    `K` is characterised by `hK1`/`hK2` (unique by `tw1_strictMono`). Freshness of the generated names is a
+    hypothesis (the code raises `ValueError` on a duplicate name). -/
+theorem addNodes_exact (m : Mirp) (port : String) (init rate cap : ℚ) (K fuel : ℕ) (hfuel : K < fuel)
+    (hr : rate ≠ 0) (hcap : m.size ≤ cap)
+    (hK1 : ∀ k < K, tw1 m.size init rate cap k ≤ m.horizon) (hK2 : m.horizon < tw1 m.size init rate cap K)
+    (hfresh : (m.g.names ++ (List.range K).map (visitName port)).Nodup) :
+    ∃ m', m.addNodes fuel port init rate cap = some (m', .ok ((List.range K).map (visitName port))) ∧
+      m'.g.nodes = m.g.nodes ++ (List.range K).map (visitNode m.size port init rate cap) ∧
+      m'.g.arcs = m.g.arcs ∧
+      m'.nodesOf port = (List.range K).map (visitName port) ∧
+      m'.supply = (if 0 < rate then m.supply ++ [port] else m.supply) ∧
+      m'.demand = (if 0 < rate then m.demand else m.demand ++ [port]) ∧
+      m'.size = m.size ∧ m'.horizon = m.horizon := by
+  rw [List.range_eq_range'] at hfresh ⊢
+  unfold Mirp.addNodes
+  by_cases hpos : 0 < rate
+  · simp only [if_pos hpos]
+    obtain ⟨m', h1, h2, h3, h4, h5, h6, h7, h8⟩ :=
+      addNodesLoop_exact m.size m.horizon port init rate cap K hr hcap hK1 hK2 K fuel
+        { m with supply := m.supply ++ [port], mapping := mapSet m.mapping port [] } 0 []
+        (by omega) hfuel rfl rfl (by simp [Mirp.nodesOf, nodesOf_mapSet]) hfresh
+    rw [if_pos hpos] at h1
+    exact ⟨m', by simpa using h1, h2, h3, by simpa using h4, h5, h6, h7, h8⟩
+  · simp only [if_neg hpos]
+    obtain ⟨m', h1, h2, h3, h4, h5, h6, h7, h8⟩ :=
+      addNodesLoop_exact m.size m.horizon port init rate cap K hr hcap hK1 hK2 K fuel
+        { m with demand := m.demand ++ [port], mapping := mapSet m.mapping port [] } 0 []
+        (by omega) hfuel rfl rfl (by simp [Mirp.nodesOf, nodesOf_mapSet]) hfresh
+    rw [if_neg hpos] at h1
+    exact ⟨m', by simpa using h1, h2, h3, by simpa using h4, h5, h6, h7, h8⟩
+
+/-- **supply-port safety**: service times anywhere inside the windows (any order, overlapping windows
+    allowed) keep the inventory within `[0, cap]` at every instant of the horizon; the lower bound counts
+    the loads at or before `τ`, the upper bound only those strictly before `τ` (both worst cases) -/
+theorem supply_inventory_safe (size init rate cap H : ℚ) (K : ℕ) (t : ℕ → ℚ) (τ : ℚ)
+    (hsize : 0 < size) (hrate : 0 < rate) (hinit0 : 0 ≤ init)
+    (hK : H < tw1 size init rate cap K)
+    (hwin : ∀ k < K, tw0 size init rate cap k ≤ t k ∧ t k ≤ tw1 size init rate cap k)
+    (hτ0 : 0 ≤ τ) (hτH : τ ≤ H) :
+    0 ≤ init + rate * τ - size * ((range K).filter (fun k => t k ≤ τ)).card ∧
+    init + rate * τ - size * ((range K).filter (fun k => t k < τ)).card ≤ cap := by
+  constructor
+  · set S := (range K).filter (fun k => t k ≤ τ) with hS
+    rcases Nat.eq_zero_or_pos S.card with h0 | hpos
+    · rw [h0]; simp; positivity
+    · obtain ⟨k, hk, hmk⟩ := exists_ge_of_card (S := S) (m := S.card - 1) (by omega)
+      rw [hS, Finset.mem_filter, Finset.mem_range] at hk
+      have h1 := (tw_supply_opens size init rate cap τ k hrate).2 (le_trans (hwin k hk.1).1 hk.2)
+      have hc : (S.card : ℚ) ≤ (k : ℚ) + 1 := by
+        have : S.card ≤ k + 1 := by omega
+        exact_mod_cast this
+      nlinarith
+  · set S := (range K).filter (fun k => t k < τ) with hS
+    have hsub : S ⊆ range K := Finset.filter_subset _ _
+    rcases Nat.lt_or_ge S.card K with hlt | hge
+    · obtain ⟨k, hkK, hkS, hkm⟩ := exists_le_not_mem hlt
+      have hk' : τ ≤ t k := by
+        by_contra hc
+        exact hkS (by rw [hS, Finset.mem_filter, Finset.mem_range]; exact ⟨hkK, not_le.1 hc⟩)
+      have h1 := (tw_supply_closes size init rate cap τ k hrate).2 (le_trans hk' (hwin k hkK).2)
+      have hc : (k : ℚ) ≤ (S.card : ℚ) := by exact_mod_cast hkm
+      nlinarith
+    · have hcard : S.card = K := by
+        have := Finset.card_le_card hsub; simp at this; omega
+      rw [hcard]
+      have h1 := (tw_supply_closes size init rate cap τ K hrate).2 (le_of_lt (lt_of_le_of_lt hτH hK))
+      nlinarith
+
+/-- **demand-port safety** (rate < 0; a visit discharges a full cargo into the port) -/
+theorem demand_inventory_safe (size init rate cap H : ℚ) (K : ℕ) (t : ℕ → ℚ) (τ : ℚ)
+    (hsize : 0 < size) (hrate : rate < 0) (hinitc : init ≤ cap)
+    (hK : H < tw1 size init rate cap K)
+    (hwin : ∀ k < K, tw0 size init rate cap k ≤ t k ∧ t k ≤ tw1 size init rate cap k)
+    (hτ0 : 0 ≤ τ) (hτH : τ ≤ H) :
+    0 ≤ init + rate * τ + size * ((range K).filter (fun k => t k < τ)).card ∧
+    init + rate * τ + size * ((range K).filter (fun k => t k ≤ τ)).card ≤ cap := by
+  constructor
+  · set S := (range K).filter (fun k => t k < τ) with hS
+    have hsub : S ⊆ range K := Finset.filter_subset _ _
+    rcases Nat.lt_or_ge S.card K with hlt | hge
+    · obtain ⟨k, hkK, hkS, hkm⟩ := exists_le_not_mem hlt
+      have hk' : τ ≤ t k := by
+        by_contra hc
+        exact hkS (by rw [hS, Finset.mem_filter, Finset.mem_range]; exact ⟨hkK, not_le.1 hc⟩)
+      have h1 := (tw_demand_closes size init rate cap τ k hrate).2 (le_trans hk' (hwin k hkK).2)
+      have hc : (k : ℚ) ≤ (S.card : ℚ) := by exact_mod_cast hkm
+      nlinarith
+    · have hcard : S.card = K := by
+        have := Finset.card_le_card hsub; simp at this; omega
+      rw [hcard]
+      have h1 := (tw_demand_closes size init rate cap τ K hrate).2 (le_of_lt (lt_of_le_of_lt hτH hK))
+      nlinarith
+  · set S := (range K).filter (fun k => t k ≤ τ) with hS
+    rcases Nat.eq_zero_or_pos S.card with h0 | hpos
+    · rw [h0]; simp; nlinarith
+    · obtain ⟨k, hk, hmk⟩ := exists_ge_of_card (S := S) (m := S.card - 1) (by omega)
+      rw [hS, Finset.mem_filter, Finset.mem_range] at hk
+      have h1 := (tw_demand_opens size init rate cap τ k hrate).2 (le_trans (hwin k hk.1).1 hk.2)
+      have hc : (S.card : ℚ) ≤ (k : ℚ) + 1 := by
+        have : S.card ≤ k + 1 := by omega
+        exact_mod_cast this
+      nlinarith
+
+/-- non-vacuity: the unit-data supply port of the test-suite (size 1, init 0, rate 1, cap 2): visits 0,1,2
+    have windows [1,2], [2,3], [3,4] -/
+example : tw0 1 0 1 2 0 = 1 ∧ tw1 1 0 1 2 0 = 2 ∧ tw0 1 0 1 2 2 = 3 ∧ tw1 1 0 1 2 2 = 4 := by
+  refine ⟨by decide +kernel, by decide +kernel, by decide +kernel, by decide +kernel⟩
 
 end Vrp.C11
